@@ -100,3 +100,34 @@ Example C13_merge_undo_example :
   | _, _ => False
   end.
 Proof. vm_compute. repeat split; discriminate. Qed.
+
+(* The composition law for INDEPENDENT changes: when diff(B,C) touches other top-level instances than diff(A,B) (no root
+   of the one has the identity of a root of the other), merging succeeds (every source root is added to the diff, none
+   is redundant) and the merged diff applied to A yields C exactly, with either merge option.  Together with
+   C13_merge_apply_partial (C = A: every source root meets its counterpart) these are the two ends of the merge table;
+   the mixed cells in between are tied by the correspondence run only. *)
+Theorem C13_merge_apply_partial_disjoint :
+  forall sch mdflt fa fb fc d1 d2, schema_nouo sch = true ->
+  wfb sch fa = true -> wfb sch fb = true -> wfb sch fc = true ->
+  diff sch true fa fb = Ok d1 -> diff sch true fb fc = Ok d2 ->
+  (forall s t, In s d2 -> In t d1 -> dd_id sch s <> dd_id sch t) ->
+  exists m, merge sch mdflt (map redup d1) d2 = Ok m /\ apply sch m fa = Ok fc.
+Proof. intros sch mdflt fa fb fc d1 d2 H. exact (merge_apply_disjoint sch mdflt H fa fb fc d1 d2). Qed.
+Print Assumptions C13_merge_apply_partial_disjoint.
+
+(* its hypotheses are satisfiable: A = l[1] {c {x = 5}}, B = l[1] {c default}, C = B plus l[2] *)
+Example C13_merge_disjoint_example :
+  let l2 := DN 0 [] false [] [DN 1 [50] false [] []; DN 2 [] false [] [DN 3 [56] false [] []]] in
+  let fc := r_B ++ [l2] in
+  wfb w_sch fc = true /\
+  match diff w_sch true r_A r_B, diff w_sch true r_B fc with
+  | Ok d1, Ok d2 =>
+      length d1 = 1%nat /\ length d2 = 1%nat /\
+      forallb (fun s => forallb (fun t => negb (same_idb w_sch (dd_node s) (dd_node t))) d1) d2 = true /\
+      match merge w_sch false (map redup d1) d2 with
+      | Ok m => length m = 2%nat /\ apply w_sch m r_A = Ok fc
+      | Err _ => False
+      end
+  | _, _ => False
+  end.
+Proof. vm_compute. repeat split; reflexivity. Qed.
